@@ -32,7 +32,8 @@ TIERS = {
     "thorough": {"budget_s": 600, "chunk": 400, "selftest": 512, "minimise_s": 90},
 }
 PROBES = ["alias_hit", "case_fold_hit", "default_taken", "required_missing", "dependency_missing", "unknown_key",
-          "alias_conflict", "faulted_leaf", "runtime_knob", "inherited_field_redeclared", "options_only_at_runtime"]
+          "alias_conflict", "faulted_leaf", "runtime_knob", "inherited_field_redeclared", "options_only_at_runtime",
+          "earlier_calls_other_options", "alias_named_like_method"]
 
 
 def generate(rng, tier):
@@ -91,6 +92,15 @@ def generate(rng, tier):
             if not f["required"] and f["default"] == "absent":
                 f["default"] = "none"
     plan["options"] = o
+    if kind in ("schema", "dataclass") and rng.random() < 0.15:
+        # one field's input alias is spelled like a class attribute that is not a field (a method of the class)
+        f = rng.choice(fields)
+        f["alias_from"] = list(f["alias_from"]) + ["helper"]
+        plan["helper_method"] = True
+    if kind in ("schema", "dataclass") and rng.random() < 0.25:
+        # earlier parses of the same declaration under other run-time options (the strategies must not remember them)
+        plan["pre_calls"] = [{"ignore_required": rng.random() < 0.6, "mode": rng.choice([None, None, "r", "w"])}
+                             for _ in range(rng.choice([1, 2]))]
     plan["sub"] = {}
     if kind in ("schema", "dataclass") and rng.random() < 0.25:
         # the fields are declared in a base class; the class under test re-declares some of them without their
@@ -193,6 +203,12 @@ def build(plan, dfs, collect):
             fo = _field_obj(f)
             if fo is not None:
                 ns[f["name"]] = fo
+        if plan.get("helper_method"):
+            def helper(self):
+                return 1
+            helper.__qualname__ = "M.helper"      # a method of the class, as the class parser recognises one
+            helper.__module__ = "verif_c06"
+            ns["helper"] = helper
         sub = plan.get("sub") or {}
         if sub:
             base = type("Base_", (Schema if kind == "schema" else DataClass,), dict(ns, __qualname__="Base_"))
@@ -208,10 +224,22 @@ def build(plan, dfs, collect):
             cls = type("M", (base,), ns2)
         else:
             cls = type("M", (Schema if kind == "schema" else DataClass,), ns)
+        pre = plan.get("pre_calls") or []
+
+        def warm(kw):
+            for pc in pre:
+                base_kw = dict(runtime if runtime is not None else okw)
+                base_kw["ignore_required"] = pc["ignore_required"]
+                if pc["mode"] and "mode" not in base_kw:
+                    base_kw["mode"] = pc["mode"]
+                try:
+                    cls.__from__(dict(kw), options=Options(**base_kw))
+                except Exception:  # noqa  (what an earlier call returns is not compared)
+                    pass
         if runtime is None:
-            return lambda pos, kw: cls(**kw)
+            return lambda pos, kw: (warm(kw), cls(**kw))[1]
         ro = Options(**runtime)
-        return lambda pos, kw: cls.__from__(kw, options=ro)
+        return lambda pos, kw: (warm(kw), cls.__from__(kw, options=ro))[1]
     env = {"__name__": "verif_c06"}
     params = []
     order = [f for f in plan["fields"] if f["required"]] + [f for f in plan["fields"] if not f["required"]]
@@ -350,6 +378,10 @@ def execute(plan):
         res.stats["probe:runtime_knob"] += 1
     if plan.get("sub"):
         res.stats["probe:inherited_field_redeclared"] += 1
+    if plan.get("pre_calls"):
+        res.stats["probe:earlier_calls_other_options"] += 1
+    if plan.get("helper_method") and any(k == "helper" for k, _v in plan["input"]):
+        res.stats["probe:alias_named_like_method"] += 1
     if plan.get("runtime_only"):
         res.stats["probe:options_only_at_runtime"] += 1
     if probes:
@@ -463,6 +495,10 @@ def shrink(plan):
     for k in list(plan.get("sub") or {}):
         p = copy.deepcopy(plan)
         p["sub"].pop(k)
+        yield p
+    if plan.get("pre_calls"):
+        p = copy.deepcopy(plan)
+        p["pre_calls"] = p["pre_calls"][:-1]
         yield p
     if plan.get("runtime_only"):
         p = copy.deepcopy(plan)
